@@ -11,6 +11,7 @@ import (
 	"net/http/httptest"
 	"strconv"
 	"sync"
+	"sync/atomic"
 	"time"
 
 	"verifharness/world"
@@ -24,6 +25,8 @@ import (
 type HTTPPCS struct {
 	srv  *httptest.Server
 	prev http.RoundTripper
+	wrap *wrappedTransport
+	tr   *http.Transport
 
 	mu   sync.Mutex
 	resp map[string]world.Resp
@@ -35,6 +38,34 @@ type HTTPPCS struct {
 	ModeFor map[string]string
 	Log     []string
 	At      []time.Time
+}
+
+// wrappedTransport is what programs commonly install as http.DefaultTransport: a RoundTripper of their own (tracing, auth,
+// egress policy) around a transport — NOT a *http.Transport.
+type wrappedTransport struct {
+	inner http.RoundTripper
+	seen  int64
+}
+
+func (w *wrappedTransport) RoundTrip(r *http.Request) (*http.Response, error) {
+	atomic.AddInt64(&w.seen, 1)
+	return w.inner.RoundTrip(r)
+}
+
+// StartWrappedHTTPPCS is StartHTTPPCS with the process's default transport being a wrapper type.
+func StartWrappedHTTPPCS(h2 bool) *HTTPPCS {
+	p := StartHTTPPCS(h2)
+	p.wrap = &wrappedTransport{inner: http.DefaultTransport}
+	http.DefaultTransport = p.wrap
+	return p
+}
+
+// ThroughWrapper reports how many requests went through the installed wrapper (0 when none is installed).
+func (p *HTTPPCS) ThroughWrapper() int64 {
+	if p.wrap == nil {
+		return 0
+	}
+	return atomic.LoadInt64(&p.wrap.seen)
 }
 
 // StartHTTPPCS starts the server (HTTP/2 when h2 is set, else HTTP/1.1).
@@ -56,8 +87,16 @@ func StartHTTPPCS(h2 bool) *HTTPPCS {
 		},
 	}
 	p.prev = http.DefaultTransport
+	p.tr = tr
 	http.DefaultTransport = tr
 	return p
+}
+
+// Requests returns how many requests the server has seen.
+func (p *HTTPPCS) Requests() int {
+	p.mu.Lock()
+	defer p.mu.Unlock()
+	return len(p.Log)
 }
 
 // Times returns the arrival times of the requests for one URL.
@@ -89,8 +128,8 @@ func (p *HTTPPCS) Serve(resp map[string]world.Resp) {
 
 // Close stops the server and puts the previous default transport back.
 func (p *HTTPPCS) Close() {
-	if tr, ok := http.DefaultTransport.(*http.Transport); ok {
-		tr.CloseIdleConnections()
+	if p.tr != nil {
+		p.tr.CloseIdleConnections()
 	}
 	http.DefaultTransport = p.prev
 	p.srv.Close()
